@@ -259,12 +259,26 @@ func main() {
 	bt := &tgen.Batch{Dir: filepath.Join(tgen.Scratch(), "batch"), Files: map[string]string{"lib.templ": "package main\n" + tgen.Library, "c10.templ": c10Templ, "c10lib.go": c10Go}}
 	defer bt.Remove()
 	all := append([]tmpl{}, hand...)
+	// the enumerated templates go into files of at most 120 templates (the parser hands the rest of the file to the Go
+	// scanner for every declaration and gives up on very large files)
 	var sb strings.Builder
-	sb.WriteString(tgen.FileHeader)
-	fileLine := 4 // FileHeader has 4 lines
+	fileNo, inFile, fileLine := 0, 0, 0
+	flush := func() {
+		if inFile > 0 {
+			bt.Files[fmt.Sprintf("space%d.templ", fileNo)] = sb.String()
+			fileNo++
+		}
+		sb.Reset()
+		sb.WriteString(tgen.FileHeader)
+		inFile, fileLine = 0, 4 // FileHeader has 4 lines
+	}
+	flush()
 	for _, p := range space {
+		if inFile == 120 {
+			flush()
+		}
 		src := tgen.PrintTemplate(p.Name, p.Body)
-		t := tmpl{name: p.Name, file: "space.templ", lines: map[string][2]int{}}
+		t := tmpl{name: p.Name, file: fmt.Sprintf("space%d.templ", fileNo), lines: map[string][2]int{}}
 		for k, l := range strings.Split(src, "\n") {
 			if i := strings.Index(l, `a.E("`); i >= 0 {
 				id := l[i+5:]
@@ -275,9 +289,10 @@ func main() {
 		}
 		fileLine += strings.Count(src, "\n") + 1
 		sb.WriteString(src + "\n")
+		inFile++
 		all = append(all, t)
 	}
-	bt.Files["space.templ"] = sb.String()
+	flush()
 	for _, t := range all {
 		bt.Names = append(bt.Names, t.name)
 	}
